@@ -350,6 +350,14 @@ def expr_grammar(rnd):
     if rnd.random() < 0.25:
         # a rule without any term (juxtaposition) : E -> E E
         rules.append(Rule(0, [('n', 0), ('n', 0)], prec=(rnd.choice([1, 2, 3]) if rnd.random() < 0.5 else None)))
+    # some operators are strings (two-character operators) or typed terms: precedence must come through unchanged
+    STR_OPS = ['&&', '||', '==', '!=', '<=', '>=', '<<', '>>', '**', '->', '::', 'or', 'and']
+    for j, t in enumerate(terms):
+        if t.text in OPCHARS and rnd.random() < 0.25:
+            w = rnd.choice(STR_OPS)
+            if all(u.text != w for u in terms) and not any(u.text in OPCHARS and (w.startswith(u.text)) and u is not t for u in terms):
+                terms[j] = Term('s', w, t.prec, t.assoc)
+        if terms[j].text not in 'i()' and rnd.random() < 0.2: terms[j].typed = True
     rnd.shuffle(rules)
     order = list(range(len(terms))); rnd.shuffle(order)   # term listing order must not matter
     inv = {o: n for n, o in enumerate(order)}
